@@ -119,6 +119,14 @@ def run(ck):
         kind = ["oneshot", "chunked", "append"][si % 3]
         n = ck.rng.choice([0, 1, 3, 260, 300]) if not q else ck.rng.choice([0, 3, 260])
         evlrs = fio.rand_vlrs(ck.rng, True, 1) if (minor >= 4 and ck.rng.random() < 0.6) else None
+        if kind == "append" and (si // 3) % 2 == 0:
+            # every other append session works on a 1.4 file that has points and EVLRs after them: the appender writes the new
+            # points over the old EVLRs, the window in which a stale header would expose them as points
+            minor, fmt = ck.rng.choice([pr for pr in fio.PAIRS if pr[0] == 4])
+            n = ck.rng.choice([2, 3, 260])
+            while not evlrs:
+                evlrs = fio.rand_vlrs(ck.rng, True, 2)
+            ck.count("append_over_evlrs")
         vl = fio.rand_vlrs(ck.rng, False, 1)
         las = fio.make_las(ck.rng, minor, fmt, n, vlrs=vl, evlrs=evlrs, scales=[0.01, 0.5, 1.0], offsets=[0.0, -100.0, 7.5])
         size = las.header.point_format.size
